@@ -135,7 +135,8 @@ def clause_tokens(cl):
     if k == "pk":
         # optional per-column sort direction (a keyword: not part of the key's column list)
         orders = cl.get("orders") or [None] * len(cl["cols"])
-        return pre + K("PRIMARY KEY") + paren(comma_list([I(c) + (K(o) if o else []) for c, o in zip(cl["cols"], orders)]))
+        mod = K(cl["modifier"]) if cl.get("modifier") else []       # mssql: PRIMARY KEY [NON]CLUSTERED (...)
+        return pre + K("PRIMARY KEY") + mod + paren(comma_list([I(c) + (K(o) if o else []) for c, o in zip(cl["cols"], orders)]))
     if k == "unique":
         return pre + K("UNIQUE") + paren(comma_list([I(c) for c in cl["cols"]]))
     if k == "check":
@@ -376,6 +377,8 @@ def add_clauses(rng, t, has_pk, max_clauses=5, position="after_first"):
             cl = {"kind": "pk", "cols": cs, "name": ("pk_%d" % cn) if kd == "cpk" else None}
             if rng.random() < 0.35:
                 cl["orders"] = [rng.choice([None, "ASC", "DESC"]) for _ in cs]
+            if rng.random() < 0.2:
+                cl["modifier"] = rng.choice(["CLUSTERED", "NONCLUSTERED"])
             made.append(cl)
         elif kd in ("uq", "cuq"):
             made.append({"kind": "unique", "cols": cs, "name": ("uq_%d" % cn) if kd == "cuq" else None})
